@@ -417,11 +417,7 @@ def cases(draw):
         rs["status"] = 200  # FileResponse chooses 206/304/416 itself from the request headers
     if rq["http10"]:
         rs["chunked"] = False
-        # known finding (HTTP/1.0 keep-alive + undeclared length => hang): mostly steered around so that the search
-        # keeps looking behind it; one case in eight still exercises it
-        if kind in ("stream", "aiter") and not rs["force_close"] and draw(st.integers(0, 7)) != 0:
-            rs["force_close"] = True
-            rs["steered_around_known"] = True
+        # (HTTP/1.0 keep-alive + undeclared length used to hang: fixed, no longer steered around)
     if rs["compress"]:
         rq["headers"] = rq["headers"] + [("Accept-Encoding", draw(st.sampled_from(["gzip", "deflate", "gzip, deflate"])))]
     total = rq["size"] + rsize
